@@ -95,6 +95,13 @@ def judge(spec, r, res):
         blocks = sorted(len([1 for a in (spec.get('assignment') or []) if a == w]) for w in set(spec.get('assignment') or []))
         check.fail(res, 'draws/replicated', f'{len(vectors)} iterations produced only {nd} distinct sample vectors '
                    f'(assignment of iterations to workers {spec.get("assignment")}, block sizes {blocks}, settings {spec["tag"]})')
+    # (a') the same holds input by input: a value replicated in one column only (one distribution drawn from a generator the workers share)
+    # leaves the vectors distinct
+    for ci, i in enumerate([x for x in inputs if x[1] != 'binomial']):
+        col = [v[ci] for v in vectors if len(v) > ci]
+        if len(set(col)) != len(col):
+            check.fail(res, f'draws/replicated_input/{i[1]}', f'{len(col)} iterations produced only {len(set(col))} distinct samples of {i[0]} ({i[1]}) '
+                       f'(assignment {spec.get("assignment")}, settings {spec["tag"]})')
     # (c) call conformance: exactly the requested distribution and parameters, once per input per iteration
     if ok_tasks is not None:
         want = [(i[1], tuple(float(x) for x in i[2:])) for i in inputs]
